@@ -90,9 +90,31 @@ message X { extensions 1 to max; }
 
 // ---------------------------------------------------------------- compile + projection
 
-var retSchemaFile protoreflect.FileDescriptor
+var retSchemaFiles = map[bool]protoreflect.FileDescriptor{}
+
+// retSchemaB is a second revision of o.proto: the same option and field names, but every
+// RETENTION_SOURCE is RETENTION_RUNTIME and vice versa. Mode strings containing 'B' compile
+// against it, so that one process strips files whose equally named options differ in retention
+// (state keyed on option names instead of descriptors shows up as a wrong strip).
+var retSchemaB = func() string {
+	t := strings.ReplaceAll(retSchema, "RETENTION_SOURCE", "RETENTION_\x00")
+	t = strings.ReplaceAll(t, "RETENTION_RUNTIME", "RETENTION_SOURCE")
+	return strings.ReplaceAll(t, "RETENTION_\x00", "RETENTION_RUNTIME")
+}()
+
+func retSchemaFor(revB bool) string {
+	if revB {
+		return retSchemaB
+	}
+	return retSchema
+}
 
 func retCompile(src string, mode string) (*descriptorpb.FileDescriptorProto, error) {
+	revB := strings.Contains(mode, "B")
+	mode = strings.ReplaceAll(mode, "B", "")
+	if mode == "" {
+		return nil, fmt.Errorf("bad mode")
+	}
 	target := "a.proto"
 	if src == "" {
 		target = "o.proto"
@@ -111,25 +133,25 @@ func retCompile(src string, mode string) (*descriptorpb.FileDescriptorProto, err
 	srcs := map[string]string{"a.proto": src}
 	var res protocompile.Resolver = &protocompile.SourceResolver{Accessor: protocompile.SourceAccessorFromMap(srcs)}
 	if target == "o.proto" {
-		srcs["o.proto"] = retSchema
+		srcs["o.proto"] = retSchemaFor(revB)
 	} else {
 		// the schema is compiled once (by the same compiler) and handed over as a descriptor
-		if retSchemaFile == nil {
+		if retSchemaFiles[revB] == nil {
 			sc := protocompile.Compiler{
 				Resolver: protocompile.WithStandardImports(&protocompile.SourceResolver{
-					Accessor: protocompile.SourceAccessorFromMap(map[string]string{"o.proto": retSchema}),
+					Accessor: protocompile.SourceAccessorFromMap(map[string]string{"o.proto": retSchemaFor(revB)}),
 				}),
 			}
 			fs, err := sc.Compile(context.Background(), "o.proto")
 			if err != nil {
 				return nil, err
 			}
-			retSchemaFile = fs[0]
+			retSchemaFiles[revB] = fs[0]
 		}
 		res = protocompile.CompositeResolver{
 			protocompile.ResolverFunc(func(path string) (protocompile.SearchResult, error) {
 				if path == "o.proto" {
-					return protocompile.SearchResult{Desc: retSchemaFile}, nil
+					return protocompile.SearchResult{Desc: retSchemaFiles[revB]}, nil
 				}
 				return protocompile.SearchResult{}, protoregistry.NotFound
 			}),
@@ -880,6 +902,23 @@ func (retentionEngine) Gen(r *Rand, tier string) [][]string {
 		seen[line] = true
 		cases = append(cases, []string{line})
 	}
+	// addPair: one case of two ops — the file against schema revision A, then against revision B —
+	// so that a replay of the case carries the history that state shared across strips needs
+	addPair := func(modeA, modeB, src string) {
+		la, err := retOpLine(modeA, src)
+		if err != nil {
+			panic(fmt.Sprintf("retention generator produced a file the compiler rejects: %v\n%s", err, src))
+		}
+		lb, err := retOpLine(modeB, src)
+		if err != nil {
+			panic(fmt.Sprintf("retention generator produced a file the compiler rejects (revision B): %v\n%s", err, src))
+		}
+		if seen[la+"|"+lb] {
+			return
+		}
+		seen[la+"|"+lb] = true
+		cases = append(cases, []string{la, lb})
+	}
 	thorough := tier == "thorough"
 
 	// the schema file itself: full of `retention = …` field options, none of them stripped
@@ -898,6 +937,11 @@ func (retentionEngine) Gen(r *Rand, tier string) [][]string {
 			})
 			for _, m := range modes {
 				add(m, src)
+			}
+			// the same file against schema revision B (same option names, SOURCE and RUNTIME
+			// swapped), interleaved with revision A in one process
+			if ti%3 == 0 || thorough {
+				addPair("s", "sB", src)
 			}
 			if ti%6 == 1 || thorough {
 				add("e", src)
@@ -1004,6 +1048,13 @@ func (retentionEngine) Gen(r *Rand, tier string) [][]string {
 			add("s", src)
 		case 4:
 			add(Pick(r, []string{"no", "so", "xo"}), src)
+		case 5:
+			m := Pick(r, []string{"s", "x", "n"})
+			if r.Intn(2) == 0 {
+				addPair(m, m+"B", src)
+			} else {
+				addPair(m+"B", m, src)
+			}
 		default:
 			add("s", src)
 		}
